@@ -153,3 +153,13 @@ Theorem combined_detector_tested : forall ct oid subs,
    test_positions ct (Node oid KComb (mirror_sig ct KComb subs) [] subs) = false).
 Proof. exact mkcomb_rejects. Qed.
 Print Assumptions combined_detector_tested.
+
+(* construction order: after build_antennas on a base detector the iterated antennas are
+   exactly the ones constructed, one per antenna position, in that order *)
+Theorem built_antennas_in_construction_order : forall ct o c m pos subs args kw t' lg,
+  is_base subs = true ->
+  build ct (Node o (KDet c) m pos subs) args kw = (t', None, lg) ->
+  flatten t' = pos /\
+  flat_map (fun x => match x with LAnt a _ _ _ => [a] | _ => [] end) lg = map a_id pos.
+Proof. exact build_base_order. Qed.
+Print Assumptions built_antennas_in_construction_order.
